@@ -4,7 +4,7 @@ package forwarder
 // C13, listener and dialer accounting: every accepted and every dialled connection is counted as closed exactly
 // once, so the active-connection gauges return to zero when all connections are gone.
 //
-//vf:assume C13-netacct: the real Listener.Accept / Dialer.DialContext (with its retry loop) run over scripted inner listeners / dial functions; 1..3 accepts or dials, each succeeding or failing (a dial may fail on its first attempts and succeed on a retry); every returned connection is then closed 1..2 times; connection tracking mode default / disabled / traffic
+//vf:assume C13-netacct: the real Listener.Accept / Dialer.DialContext (with its retry loop) run over scripted inner listeners / dial functions; 1..3 accepts or dials, each succeeding or failing (a dial may fail on its first attempts and succeed on a retry); every returned connection is then closed 1..2 times; connection tracking mode default / disabled / traffic; with or without an address redirect
 //vf:assume C13-netacct: the methods of listenerMetrics / dialerMetrics are replaced by a ledger of the same shape (accepted, errors, active; per-host for the dialer), so the Prometheus client itself is outside (model-only harness); time.Sleep between dial attempts is a no-op of the model clock
 
 import (
@@ -143,6 +143,16 @@ func vfH_C13_dialer() {
 		inner = append(inner, c)
 		return c, nil
 	}
+	// an address redirect (--connect-to): every count belongs to the address actually dialled
+	redirect := vfrt.Choice("redirect", 2) == 1
+	if redirect {
+		d.rd = func(network, address string) (string, string) {
+			if address == "example.com:443" {
+				return network, "10.0.0.5:443"
+			}
+			return network, address
+		}
+	}
 	mode := DialConnTrack(vfrt.Choice("conn-track", 3))
 	ctx := context.Background()
 	if mode != DialConnTrackDefault {
@@ -182,7 +192,11 @@ func vfH_C13_dialer() {
 			}
 			continue
 		}
-		got = append(got, dialled{c, addr2Host(addr)})
+		host := addr2Host(addr)
+		if redirect && addr == "example.com:443" {
+			host = "10.0.0.5"
+		}
+		got = append(got, dialled{c, host})
 	}
 	vfrt.Assert(vfNet.retries == wantRetries, "dialer/retries-counted")
 	vfrt.Assert(vfNet.errors == wantErrors, "dialer/one-error-per-failed-dial")
